@@ -29,7 +29,10 @@ def correspondence(ctx, drv, sis, n_cases, tag):
         ctx.case(c, nontrivial=nontriv, sample=dict(case=c, tape=impl["tape"][:12]))
         d = sims.compare_gillespie(c, impl, m)
         ctx.traces += 1
-        if d is not None:
+        tv = common.trace_violation(impl["trace"], m["trace"]) if (impl.get("ok") and m.get("ok") and "trace" in impl and "trace" in m) else None
+        if tv:
+            ctx.violation("%s: %s" % (tag, tv), dict(entry=tag, case=c, tape=impl["tape"], model_trace=m["trace"][:60]))
+        elif d is not None:
             ctx.disagreement(tag + "-tape", dict(entry=tag, case=c, tape=impl["tape"], diff=d))
     return cases, impls, resps
 
